@@ -4,6 +4,7 @@ import (
 	"flag"
 	"fmt"
 	"os"
+	"runtime/pprof"
 	"sort"
 	"strings"
 	"time"
@@ -67,5 +68,18 @@ func main() {
 	default:
 		fmt.Println("unknown command")
 		os.Exit(2)
+	}
+}
+
+func init() {
+	if p := os.Getenv("VERIF_CPUPROFILE"); p != "" {
+		f, _ := os.Create(p)
+		pprof.StartCPUProfile(f)
+		go func() {
+			time.Sleep(20 * time.Second)
+			pprof.StopCPUProfile()
+			f.Close()
+			os.Exit(0)
+		}()
 	}
 }
